@@ -150,18 +150,14 @@ def fileEnd (f : File) : Nat :=
   | some (o, r) => o + r.size
   | none => 0
 
-/-- `MMapRWManager.ReadAt` refuses every read at `off ≥ len(mapping)`, including the zero-length read
-of an empty value that ends exactly at the segment end. -/
-def mmapUnreadable (seg : Nat) (off : Nat) (r : Rec) : Bool := r.value.isEmpty && decide (off + r.size ≥ seg)
-
 /-- `DataFile.ReadAt(off)`: the record starting there; `none` = zero header (end of data);
 `err` = inside a record or beyond the segment. -/
-def readAt (fs : List File) (seg : Nat) (mmap : Bool) (fid off : Nat) : Outcome (Option Rec) :=
+def readAt (fs : List File) (seg : Nat) (fid off : Nat) : Outcome (Option Rec) :=
   match fileGet? fs fid with
   | none => .ok none                     -- NewDataFile creates an all-zero file
   | some f =>
     match f.recs.find? (·.1 == off) with
-    | some (_, r) => if mmap && mmapUnreadable seg off r then .err else .ok (some r)
+    | some (_, r) => .ok (some r)
     | none => if off ≥ fileEnd f ∧ off + headerSize ≤ seg then .ok none else .err
 
 /-! ### applying records to the in-memory indexes -/
@@ -177,6 +173,10 @@ def splitSep (b : Bytes) : List Bytes :=
     | [] => acc ++ [cur]
     | x :: xs => if x == sepByte then go [] xs (acc ++ [cur]) else go (cur ++ [x]) xs acc
   go [] b []
+
+/-- `strings.SplitN(x, "|", 2)`: the text before the first separator and everything after it -/
+def splitSep2 (b : Bytes) : Option (Bytes × Bytes) :=
+  if b.contains sepByte then some (b.takeWhile (· != sepByte), (b.dropWhile (· != sepByte)).drop 1) else none
 
 def digitsToNat (b : Bytes) : Option Nat :=
   if b.isEmpty then none
@@ -204,9 +204,9 @@ def applyList (l : ListDS.St) (r : Rec) : ListDS.St × Outcome Unit :=
   if r.flag == flagLPush then ((ListDS.lpush l r.key [r.value]).1, .ok ())
   else if r.flag == flagRPush then ((ListDS.rpush l r.key [r.value]).1, .ok ())
   else if r.flag == flagLRem then
-    match splitSep r.value with
-    | c :: v :: _ => let (l', o) := ListDS.lrem l r.key (atoi c) v; (l', o.map fun _ => ())
-    | _ => (l, .panic)
+    match splitSep2 r.value with
+    | some (c, v) => let (l', o) := ListDS.lrem l r.key (atoi c) v; (l', o.map fun _ => ())
+    | none => (l, .panic)
   else if r.flag == flagLPop then let (l', o) := ListDS.lpop l r.key; (l', o.map fun _ => ())
   else if r.flag == flagRPop then let (l', o) := ListDS.rpop l r.key; (l', o.map fun _ => ())
   else if r.flag == flagLSet then
@@ -259,22 +259,36 @@ def rotate (s : State) : State :=
   let nf := s.activeFid + 1
   { s with activeFid := nf, hintFid := nf, writeOff := 0, actualSize := 0, files := fileEnsure s.files nf }
 
-/-- the write loop of `Tx.Commit`; `none` = `ErrKeyAndValSize` at some record (state keeps what was
+def preRotate (s : State) (r : Rec) : State := if s.actualSize + r.size > s.opt.seg then rotate s else s
+
+/-- only the last record of a transaction carries status `Committed` -/
+def markLast (r : Rec) (last : Bool) : Rec := if last then { r with status := 1 } else r
+
+def appendRec (s : State) (r : Rec) : State :=
+  { s with files := fileAppend s.files s.activeFid s.writeOff r,
+           actualSize := s.actualSize + r.size, writeOff := s.writeOff + r.size }
+
+def noteCommitted (s : State) (id : Nat) : State :=
+  { s with committed := if s.committed.contains id then s.committed else id :: s.committed }
+
+/-- one iteration of the write loop of `Tx.Commit` (after the size test): rotate when the record does
+not fit, mark the last record committed, write it, record the transaction id after the last write,
+index a KV record at once. -/
+def writeRec (s : State) (r : Rec) (last : Bool) : State :=
+  let s1 := preRotate s r
+  let r1 := markLast r last
+  let s2 := appendRec s1 r1
+  let s3 := if last then noteCommitted s2 r1.txid else s2
+  if r1.ds == dsKV then applyKV s3 r1 s1.hintFid s1.writeOff else s3
+
+/-- the write loop of `Tx.Commit`; `false` = `ErrKeyAndValSize` at some record (state keeps what was
 written and indexed before it). -/
 def commitLoop (s : State) (recs : List Rec) : State × Bool :=
   match recs with
   | [] => (s, true)
   | r :: rest =>
     if r.size > s.opt.seg then (s, false)
-    else
-      let s := if s.actualSize + r.size > s.opt.seg then rotate s else s
-      let r := if rest.isEmpty then { r with status := 1 } else r
-      let off := s.writeOff
-      let s := { s with files := fileAppend s.files s.activeFid off r,
-                        actualSize := s.actualSize + r.size, writeOff := s.writeOff + r.size }
-      let s := if rest.isEmpty then { s with committed := if s.committed.contains r.txid then s.committed else r.txid :: s.committed } else s
-      let s := if r.ds == dsKV then applyKV s r s.hintFid off else s
-      commitLoop s rest
+    else commitLoop (writeRec s r rest.isEmpty) rest
 
 /-- `buildIdxes`: list/set/zset records applied after the loop, errors ignored, panics propagate. -/
 def buildIdxes (s : State) (recs : List Rec) : State × Bool :=
@@ -302,7 +316,7 @@ def allRecs (fs : List File) : List (Rec × Nat × Nat) :=
 def committedIds (rs : List (Rec × Nat × Nat)) : List Nat :=
   (rs.filter fun x => x.1.status == 1).map fun x => x.1.txid
 
-/-- replay through `db.build*Idx`: aborts on the first structure error; in key-only mode a
+/-- replay through `db.build*Idx`: structure errors are ignored as at commit time; in key-only mode a
 structure record has no entry (`ErrEntryIdxModeOpt`). -/
 def replay (s : State) (rs : List (Rec × Nat × Nat)) (ids : List Nat) : State × Outcome Unit :=
   match rs with
@@ -314,9 +328,8 @@ def replay (s : State) (rs : List (Rec × Nat × Nat)) (ids : List Nat) : State 
     else
       let (s', o) := applyOther s r false
       match o with
-      | .ok _ => replay s' rest ids
-      | .err => (s', .err)
       | .panic => (s', .panic)
+      | _ => replay s' rest ids     -- errors are ignored exactly as at commit time
 
 /-- `Open` on the files `fs`. -/
 def openDB (opt : Opts) (fs : List File) : State × Outcome Unit :=
@@ -326,10 +339,6 @@ def openDB (opt : Opts) (fs : List File) : State × Outcome Unit :=
   let s : State := { opt := opt, files := fs', activeFid := maxFid, hintFid := maxFid, writeOff := fileEnd act,
                      actualSize := fileEnd act, opened := true }
   if fs.isEmpty then (s, .ok ())
-  -- getActiveFileWriteOff has no `off ≥ SegmentSize` test: under MMap a read at the segment end fails
-  else if opt.rw == 1 && (decide (fileEnd act ≥ opt.seg) || act.recs.any fun p => mmapUnreadable opt.seg p.1 p.2) then (s, .err)
-  -- parseDataFiles (StartFileLoadingMode): a record that cannot be read back is a fatal error
-  else if opt.startRw == 1 && fs'.any (fun f => f.recs.any fun p => mmapUnreadable opt.seg p.1 p.2) then (s, .err)
   else
     let rs := allRecs fs'
     let ids := committedIds rs
@@ -342,7 +351,7 @@ def bucketIdx (s : State) (b : Bytes) : Option (Assoc Idx) := aget? s.kv b
 /-- what a scan returns for an index record: the entry in RAM, or (key-only mode) the record read
 back from the hint position. -/
 def fetch (s : State) (i : Idx) : Outcome (Option Rec) :=
-  if s.opt.mode == 0 then .ok (some i.r) else readAt s.files s.opt.seg (s.opt.rw == 1) i.fid i.pos
+  if s.opt.mode == 0 then .ok (some i.r) else readAt s.files s.opt.seg i.fid i.pos
 
 def get (s : State) (b k : Bytes) (now : Nat) : Outcome (Option Rec) :=
   match bucketIdx s b with
